@@ -84,8 +84,8 @@ allowPorts = [{start=23900,end=23999}]
 		fmt.Fprintln(os.Stderr, "server:", err)
 		os.Exit(h.ExitHarnessError)
 	}
-	nHist := run.N(100, 1000)
-	nRace := run.N(80, 600)
+	nHist := run.N(100, 4000)
+	nRace := run.N(80, 2400)
 	run.Parallel(nHist+nRace, 10, func(c *h.Case) {
 		if c.Idx < nHist {
 			historyCase(c)
@@ -93,7 +93,7 @@ allowPorts = [{start=23900,end=23999}]
 			raceCase(c)
 		}
 	})
-	run.ParallelRange(100000, run.N(24, 160), 8, handoffCase)
+	run.ParallelRange(100000, run.N(24, 640), 8, handoffCase)
 	srv.Close()
 	srvAuto.Close()
 	run.Finish(30)
